@@ -459,7 +459,21 @@ def p_double_y0(p):
     return None
 
 
-PROPS = {"field_axioms": p_field_axioms, "small_curve": p_small_curve, "group_ids": p_group_ids,
+def p_int_points(x, y, a, b):
+    """the generic Point class also works over plain integers (the repository's own PointTest uses it so):
+    doubling and adding must not assume FieldElement coordinates (regression for 5b941e6)"""
+    from buidl.pecc import Point
+    P = Point(x, y, a, b)
+    Q = P + P
+    if Q.x is not None and Q.y ** 2 != Q.x ** 3 + a * Q.x + b:
+        return "P + P over the integers is not on the curve"
+    R = Point(x, -y, a, b)
+    if (P + R).x is not None:
+        return "P + (-P) over the integers is not the point at infinity"
+    return None
+
+
+PROPS = {"int_points": p_int_points, "field_axioms": p_field_axioms, "small_curve": p_small_curve, "group_ids": p_group_ids,
          "point_laws": p_point_laws, "scalar": p_scalar, "sec_rt": p_sec_rt, "parse": p_parse,
          "double_y0": p_double_y0}
 
@@ -502,6 +516,12 @@ def small_curve_params(p, r=None):
 
 
 def generate(ctx):
+    yield from _generate(ctx)
+    for (x, y, a, b) in [(-1, -1, 5, 7), (-1, 1, 5, 7), (2, 5, 5, 7), (3, -7, 5, 7), (18, 77, 5, 7)]:
+        yield ("prop", "int_points", [x, y, a, b])
+
+
+def _generate(ctx):
     r = ctx.rng
     thorough = ctx.tier == "thorough" if hasattr(ctx, "tier") else False
 
